@@ -43,6 +43,7 @@ def plan(tier, seed):
         for b in readers:
             chunks.append({'kind': 'chains', 'a': a, 'b': b, 'tier': tier})
     chunks.append({'kind': 'deviations', 'tier': tier})
+    chunks.append({'kind': 'trans'})
     chunks.append({'kind': 'subprocess'})
     return {
         'chunks': chunks,
@@ -50,9 +51,10 @@ def plan(tier, seed):
                 'plus all 1..3-sentence corpora from a feature pool; every (source, destination) pair of 5 x 6 '
                 'formats through `treetools transform`; chains A->B->A and A->B->C over the 5 readable formats; '
                 'deviations: encodings latin-1/utf-16 on either side, gzip source, directory source, reader and '
-                'writer options; a fixed subset re-run as a subprocess (conformance of the in-process path). '
+                'writer options; %d transformation pipelines through --trans/--params compared with the same functions called '
+                'through the API; a fixed subset re-run as a subprocess (conformance of the in-process path). '
                 'non-trivial = conversions between different formats or of discontinuous / multi-sentence corpora'
-                % nmax,
+                % (nmax, len(TRANS_COMBOS)),
         'bound': 'n <= %d tokens, <= 3 sentences, chains of length <= 2' % nmax,
         'exhaustive': True,
         'assumptions': ['root label VROOT (export cannot carry another one, DESIGN D4)',
@@ -383,8 +385,95 @@ def check_subprocess(mtjs, src, dest):
     return out
 
 
+TRANS_COMBOS = [
+    (['root_attach'], [], []),
+    (['root_attach', 'negra_mark_heads', 'boyd_split'], [], ['boyd_split_numbering']),
+    (['negra_mark_heads', 'binarize'], [], ['mark_heads_marking']),
+    (['mark_heads_by_rules', 'binarize'], ['mark_heads_preset:ptb', 'bare_bin_labels'], []),
+    (['punctuation_root'], [], []),
+    (['root_attach', 'punctuation_verylow'], [], []),
+    (['root_attach', 'punctuation_symetrify'], ['relc:T1'], []),
+    (['add_topnode', 'collapse_unary_chains'], [], []),
+    (['filter_by_length'], ['filteroperator:lt', 'filtervalue:3'], []),
+    (['filter_by_length', 'add_topnode'], ['filteroperator:gt', 'filtervalue:2'], []),
+    (['punctuation_delete', 'add_topnode'], ['quiet'], []),
+    (['insert_terminals', 'root_attach'], ['terminalfile:{terms}', 'quiet'], []),
+]
+
+
+def my_options(items):
+    out = {}
+    for it in items:
+        if ':' in it:
+            k, v = it.split(':', 1)
+            out[k] = int(v) if v.isdigit() else v
+        else:
+            out[it] = True
+    return out
+
+
+def check_trans(mtjs, combo_i):
+    """The glue of `treetools transform --trans ... --params ...`: the destination file must be what
+    reader -> the named transformation functions in order (stop at None) -> writer give through the API."""
+    import io as _io
+    from trees import transform as _tf, treeoutput as _to
+    mts = [model.MT.from_json(j) for j in mtjs]
+    trans, params, dopts = TRANS_COMBOS[combo_i]
+    case = {'trans': combo_i, 'corpus': mtjs}
+    d = workdir()
+    terms = os.path.join(d, 'terms.txt')
+    with open(terms, 'w', encoding='utf-8') as f:
+        f.write('%d 1 NEU XX\n%d 9 NIE XX\n' % (mts[0].sid, mts[0].sid))
+    params = [p.format(terms=terms) for p in params]
+    src = os.path.join(d, 'in.export')
+    with open(src, 'w', encoding='utf-8') as f:
+        f.write(codecs.encode_export(mts, version=4))
+    dest = os.path.join(d, 'out.export')
+    argv = ['transform', src, dest, '--trans'] + trans
+    if params:
+        argv += ['--params'] + params
+    if dopts:
+        argv += ['--dest-opts'] + dopts
+    st, so, se, exc = cli.run(argv)
+    out = []
+
+    def bad(kind, detail):
+        out.append({'kind': kind, 'where': 'transform --trans ' + ' '.join(trans), 'case': case,
+                    'detail': '%s [corpus %s, params %r, dest-opts %r]' % (detail, [model.mt_str(m.root, m.toks) for m in mts], params, dopts),
+                    'what': 'transform --trans: ' + kind})
+    # the same through the API
+    try:
+        stream = _io.StringIO()
+        kw = my_options(params)
+        for t in treeinput.export(src, 'utf-8', quiet=True):
+            for name in trans:
+                t = getattr(_tf, name)(t, **kw)
+                if t is None:
+                    break
+            if t is not None:
+                _to.export(t, stream, **my_options(dopts))
+        api_text, api_err = stream.getvalue(), None
+    except Exception as e:
+        api_text, api_err = None, e
+    if api_err is not None:
+        if st == 0:
+            bad('cli-accepts', 'the API pipeline raises %s: %s but the command succeeds' % (type(api_err).__name__, api_err))
+        return out
+    if st != 0:
+        bad('cli-failed', 'exit status %r %s' % (st, cli.describe(exc)))
+        return out
+    got = open(dest, encoding='utf-8').read()
+    if got != api_text:
+        i = next((i for i in range(min(len(got), len(api_text))) if got[i] != api_text[i]), min(len(got), len(api_text)))
+        bad('cli-differs-from-api', 'destination file differs from the API pipeline at offset %d: %r vs %r'
+            % (i, got[max(0, i - 40):i + 60], api_text[max(0, i - 40):i + 60]))
+    return out
+
+
 def check_case(case):
     with quiet():
+        if 'trans' in case:
+            return check_trans(case['corpus'], case['trans'])
         if case.get('dir'):
             return check_directory(case['a'], case['b'], case['src'], case['dest'])
         if case.get('sub'):
@@ -428,6 +517,20 @@ def run_chunk(chunk):
                     js = [m.to_json() for m in corp]
                     take(check_chain(js, [a, b, c]), True, (a, b, c, tuple(m.key() for m in corp)))
             res.sample({'chains': '%s -> %s -> {%s, ...}' % (a, b, a), 'corpora': len(corps)})
+        elif kind == 'trans':
+            punct = []
+            for i, m in enumerate(pool(False) + pool(True)):
+                toks = [dict(t) for t in m.toks]
+                if len(toks) > 1:
+                    toks[1]['word'] = ',' if i % 2 else '"'
+                if len(toks) > 3:
+                    toks[3]['word'] = '('
+                punct.append(model.MT(i + 1, toks, m.root))
+            corps = [punct[:4], punct[4:8], punct[8:], [punct[5]], punct[::-1][:5]]
+            for ci in range(len(TRANS_COMBOS)):
+                for corp in corps:
+                    take(check_trans([m.to_json() for m in corp], ci), True, ('trans', ci, tuple(m.key() for m in corp)))
+            res.sample({'cli_vs_api': ['--trans ' + ' '.join(c[0]) + (' --params ' + ' '.join(c[1]) if c[1] else '') for c in TRANS_COMBOS]})
         elif kind == 'deviations':
             P = pool(False)
             Pc = pool(True)
